@@ -244,8 +244,47 @@ def site_text(f):
     return ''
 
 
+_TAGGED = {}
+
+
+def tagged_functions(prop):
+    """functions in whose contract `prop` has a tagged clause: the property rests on the proof of that function"""
+    if prop in _TAGGED:
+        return _TAGGED[prop]
+    import glob
+    res = set()
+    for p in glob.glob(os.path.join(VERIF, 'contracts', '*.vc')):
+        txt = open(p).read()
+        hit = False
+        for m in re.finditer(r'//\s*#[A-Za-z0-9_]+\s*\[([A-Z0-9, ]*)\]', txt):
+            if prop in [x.strip() for x in m.group(1).split(',')]:
+                hit = True
+                break
+        if hit:
+            stem = os.path.basename(p)[:-3]
+            parts = stem.split('.')
+            res.add('%s.rs::%s' % (parts[0], '::'.join(parts[1:])))
+    _TAGGED[prop] = res
+    return res
+
+
 def relevant(f, prop, cfg):
     """does this failed obligation count for `prop`?"""
+    r = relevant0(f, prop, cfg)
+    if r is False:
+        # A failed assertion, loop invariant, proof hint or safety obligation is ASSUMED by the verifier for the rest of
+        # the function, so every clause proved in that function is in doubt - including the clauses tagged for `prop`.
+        # (A failed `ensures` of another property poisons nothing: postconditions are checked independently.)
+        c, s = f['clause'], f['site']
+        fn = (s.get('fn') if s else None) or (c.get('fn') if c else None)
+        is_foreign_ensures = bool(c and c.get('k') == 'contract' and c.get('section', '') in ('sig', 'sig-prove-extra', 'sig-stub-extra')
+                                  and (s is None or s.get('fn') == c.get('fn')))
+        if fn and not is_foreign_ensures and fn in tagged_functions(prop):
+            return True
+    return r
+
+
+def relevant0(f, prop, cfg):
     c, s = f['clause'], f['site']
     fns = set(cfg.get('functions', []))
     if c and c.get('k') == 'contract':
